@@ -131,6 +131,29 @@ pub fn emit_module(k: usize, spec: &AppSpec) -> String {
             }
         }
     }
+    // ---- generic wrappers: one generic constructor per lifecycle, instantiated by the consumers' signatures
+    let used_kinds: std::collections::BTreeSet<u8> = spec.comps.iter().flat_map(|c| c.gens.iter().map(|(k, _)| *k % 3)).collect();
+    for kind in &used_kinds {
+        let (letter, life) = [("S", "singleton"), ("R", "request_scoped"), ("T", "transient")][*kind as usize];
+        let _ = writeln!(s, "pub struct G{letter}<T>(pub std::marker::PhantomData<fn() -> T>);");
+        let _ = writeln!(s, "#[pavex::{life}(id = \"M{k}_G{letter}\")]\npub fn g_{}<T>(inner: &T) -> G{letter}<T> {{\n    let _ = inner;\n    G{letter}(std::marker::PhantomData)\n}}\n", letter.to_lowercase());
+    }
+    let peel_handler: Option<usize> = if spec.peel && !spec.types.is_empty() {
+        let mut first = None;
+        spec.walk_regs(&mut |r, _| {
+            if let Reg::Comp { idx } = r {
+                if first.is_none() && spec.comps[*idx].kind == CompKind::Handler {
+                    first = Some(*idx);
+                }
+            }
+        });
+        first
+    } else {
+        None
+    };
+    if peel_handler.is_some() {
+        let _ = writeln!(s, "pub struct GP<T>(pub std::marker::PhantomData<fn() -> T>);\n#[pavex::request_scoped(id = \"M{k}_GP\")]\npub fn g_peel<T>(inner: &GP<GP<T>>) -> GP<T> {{\n    let _ = inner;\n    GP(std::marker::PhantomData)\n}}\n");
+    }
     // ---- components
     let bulk = spec.bulk_groups();
     for (idx, c) in spec.comps.iter().enumerate() {
@@ -140,6 +163,12 @@ pub fn emit_module(k: usize, spec: &AppSpec) -> String {
         params(k, spec, &c.inputs, &name, &mut sig, &mut body);
         for (n, f) in c.fw.iter().enumerate() {
             let _ = write!(sig, "fw{n}: {}, ", FRAMEWORK_INPUTS[*f as usize % FRAMEWORK_INPUTS.len()]);
+        }
+        if peel_handler == Some(idx) {
+            sig.push_str("gp: &GP<T0>, ");
+        }
+        for (n, (kind, inner)) in c.gens.iter().enumerate() {
+            let _ = write!(sig, "g{n}: &G{}<T{inner}>, ", ["S", "R", "T"][*kind as usize % 3]);
         }
         let asy = if c.is_async { "async " } else { "" };
         match &c.kind {
@@ -252,6 +281,15 @@ pub fn emit_module(k: usize, spec: &AppSpec) -> String {
     }
     // ---- blueprint
     s.push_str("pub fn blueprint() -> Blueprint {\n    let mut bp0 = Blueprint::new();\n");
+    {
+        let used_kinds: std::collections::BTreeSet<u8> = spec.comps.iter().flat_map(|c| c.gens.iter().map(|(k, _)| *k % 3)).collect();
+        for kind in used_kinds {
+            let _ = writeln!(s, "    bp0.constructor(M{k}_G{});", ["S", "R", "T"][kind as usize]);
+        }
+    }
+    if spec.peel && !spec.types.is_empty() && spec.comps.iter().any(|c| c.kind == CompKind::Handler) {
+        let _ = writeln!(s, "    bp0.constructor(M{k}_GP);");
+    }
     if spec.comps.iter().any(|c| c.route.as_ref().is_some_and(|r| !r.path_param_fields.is_empty())) {
         // the constructor (and error handler) of PathParams<T> come from the framework crate
         s.push_str("    bp0.import(pavex::blueprint::from![pavex]);\n");
